@@ -12,7 +12,7 @@
 typedef struct {
   uint8_t *data; size_t len, cap;
   long sched[16]; int nsched, i;
-  int fail_armed, fired;
+  int fail_armed, fail_with_count, fired;
   unsigned long calls;
 } Sink;
 
@@ -23,7 +23,7 @@ static void sink_put(Sink *s, const uint8_t *p, size_t n) {
 static int32_t write_cb(const uint8_t *buf, uint32_t len, void *ctx, uint32_t *written) {
   Sink *s = (Sink *)ctx;
   s->calls++;
-  if (s->fail_armed) { s->fail_armed = 0; s->fired = 1; return 5; }
+  if (s->fail_armed) { s->fail_armed = 0; s->fired = 1; if (s->fail_with_count) *written = len; return 5; }
   long k = len;
   if (s->nsched) { k = s->sched[s->i % s->nsched]; s->i++; }
   if (k == 0) return 4;                         /* EINTR: try again */
@@ -106,7 +106,7 @@ int main(int argc, char **argv) {
     else if (!strcmp(tok[0], "CALL")) {
       int idx = atoi(tok[1]), null_round = atoi(tok[2]), arm = atoi(tok[3]);
       const char *op = tok[4];
-      if (arm) sink.fail_armed = 1;
+      if (arm) { sink.fail_armed = 1; sink.fail_with_count = (arm == 2); }
       int fired0 = sink.fired;
       MLAStatus st = 0;
       if (!strcmp(op, "cfg")) st = mla_config_default_new(&cfg);
